@@ -6,9 +6,10 @@ import vlib
 
 
 def bounds():
+    """measured: 2 names, caps 0..2, <=5 handles, <=8 calls: 228 k transitions; 3 names, caps 0..2, <=6 calls: 89 k"""
     if vlib.tier() == "thorough":
         return [dict(Caps="{0,1,2}", MaxHandles=5, MaxOps=8, Fixed="TRUE", names='{"a", "b"}'),
-                dict(Caps="{0,1,2,3}", MaxHandles=4, MaxOps=7, Fixed="TRUE", names='{"a", "b", "c"}')]
+                dict(Caps="{0,1,2}", MaxHandles=4, MaxOps=6, Fixed="TRUE", names='{"a", "b", "c"}')]
     return [dict(Caps="{0,1,2}", MaxHandles=4, MaxOps=6, Fixed="TRUE", names='{"a", "b"}')]
 
 
@@ -74,7 +75,8 @@ def run(pid):
         total += len(scens)
         if not rep.cov["samples"]:
             rep.cov["samples"] = [s["ops"] for s in scens[:: max(1, len(scens) // 3)][:3]]
-        judge(rep, scens, "bfs%d" % total)
+        for i in range(0, len(scens), 60000):
+            judge(rep, scens[i:i + 60000], "bfs%d.%d" % (total, i))
     n, depth = (400, 30) if vlib.tier() == "quick" else (5000, 60)
     rs = random_scenarios(rng, n, depth)
     judge(rep, rs, "rand")
